@@ -49,6 +49,8 @@ mod channel;
 mod context;
 mod environment;
 pub mod error;
+#[cfg(feature = "verif")]
+pub mod verif;
 
 pub use hannibal_derive::{main, message};
 
